@@ -258,6 +258,8 @@ func checkC10(sc *Scenario) *CheckOut {
 func init() {
 	rule := "a run is non-trivial when at least one request received a context that an earlier request had used (measured by object identity in the simulated pool)"
 	register(&Profile{Prop: "C10", Name: "sequential", Quick: 16000, Thorough: 500000, Gen: genC10("sequential"), Check: checkC10, Rule: rule, Faulty: true})
+	register(&Profile{Prop: "C10", Name: "concurrent-pre", Pre: true, Quick: 2000, Thorough: 40000, Gen: preempt(genC10("concurrent")), Check: checkC10,
+		Rule: "as concurrent; a task can be preempted before every statement of rux (instrumented copy)"})
 	register(&Profile{Prop: "C10", Name: "concurrent-race", Race: true, Quick: 1500, Thorough: 40000, Gen: coarseRace(genC10("concurrent")), Check: checkC10,
 		Rule: "as concurrent, executed under the race detector with coarse schedules", Faulty: true})
 	register(&Profile{Prop: "C10", Name: "concurrent", Quick: 10000, Thorough: 300000, Gen: genC10("concurrent"), Check: checkC10, Rule: rule, Faulty: true})
